@@ -69,6 +69,11 @@ INJ = {
          'assigns': 'first, self->m_size, __CPROVER_object_whole(self->m_data)',
          'invariants': ['C02_INV_CR(self, first, last)', 'C02_INV_CR1(g_k, self)'],
          'decreases': '__CPROVER_POINTER_OFFSET(last) - __CPROVER_POINTER_OFFSET(first)'}],
+    # case split REALLOC (params): in the case size()+n <= capacity() changeBuffer must not be reached - asserted, then the path is cut so that
+    # symex drops the reallocation code from the formula (assert-then-assume of the same condition: nothing is hidden)
+    'NOREALLOC': [
+        {'file': F, 'func': 'vector_changeBuffer', 'at': 'func-begin',
+         'ghost': '__CPROVER_assert(REALLOC != 0, "value: no reallocation while the new size() fits capacity()"); __CPROVER_assume(REALLOC != 0);'}],
     # known-finding waiver windows (see spec/c02_vec.h): the raw slot end()-1 that insert/emplace (move-)assign into
     'W_INSERT': [
         {'file': F, 'func': 'vector_insert', 'at': 'after', 'anchor': 'self->m_size++;',
@@ -93,7 +98,7 @@ COMMON_TRUSTED = ['spec/c02_vec.h allocator stub = std::allocator<T>::allocate/d
 UNITS = {}
 
 
-def unit(name, functions, loops, clauses, body, kf=(), extra_inject=(), extra=None, assumptions=(), trusted=()):
+def unit(name, functions, loops, clauses, body, kf=(), extra_inject=(), extra=None, assumptions=(), trusted=(), need_j=False):
     meta = {
         'kind': 'proof', 'mode': 'legacy',
         'functions': functions,
@@ -105,6 +110,8 @@ def unit(name, functions, loops, clauses, body, kf=(), extra_inject=(), extra=No
         'trusted': COMMON_TRUSTED + list(trusted),
         'assumptions': COMMON_ASSUME + list(assumptions),
     }
+    if not need_j:
+        meta['defines'] = ['C02_NO_J']      # one tracked index is enough: invariants about g_j compiled out
     if kf:
         meta['kf'] = list(kf)
     if extra:
